@@ -40,7 +40,9 @@ INT_RANGE = {'int8': (-128, 127), 'int16': (-2 ** 15, 2 ** 15 - 1), 'int32': (-2
              'UInt64': (0, 2 ** 64 - 1)}
 
 NAMES = ['a', 'b c', 'näme', '日本', '7', 'x"y', "q'r", 'a_min_ok', 'n_failures', 'Index', 'x.y', 'A', ' lead', 'tab\tname',
-         'index', 'level_0', 'a_nonnull_ok']
+         'index', 'level_0', 'a_nonnull_ok',
+         # names that look like something else in a .tdda file: comment markers and the format's own keywords
+         '#id', '#', '#CHROM', 'fields', 'type', 'min', 'creation_metadata', 'comment', 'rex', 'value']
 ROWS = [0, 1, 2, 3, 5, 21, 30, 60]
 NULLS = ['none', 'none', 'one', 'two', 'many', 'all']
 
@@ -94,6 +96,11 @@ def _float_values(rng, kind, n):
 
 
 def _str_values(rng, n):
+    if n and rng.random() < 0.03:
+        return S.backref_values(rng, n)
+    if n >= 2 and rng.random() < 0.03:
+        base = S.longtexts(rng)
+        return [base[i % len(base)] for i in range(n)]
     if n and rng.random() < 0.05:
         base = S.lookalikes(rng)
         return [base[i % len(base)] for i in range(n)]
